@@ -96,6 +96,28 @@ var bodyDocs = []string{"", " ", "<", "<x/>", "<x>", "not xml", "<?xml version=\
 	"<Account/>", "<Account><Access/></Account>", "<Account><Role>admin</Role></Account>", "<MutableProps/>", "<MutableProps><UserID>x</UserID></MutableProps>",
 }
 
+// policy documents whose single fields hold what a client can put there instead of a proper value: the empty string,
+// null, empty and half-empty arrays, numbers, objects
+func init() {
+	valid := map[string]string{"Effect": `"Allow"`, "Principal": `"*"`, "Action": `"s3:GetObject"`, "Resource": `"arn:aws:s3:::bkt-a/*"`}
+	for _, field := range []string{"Effect", "Principal", "Action", "Resource"} {
+		for _, v := range []string{`""`, `null`, `[]`, `[""]`, `[` + valid[field] + `,""]`, `["",` + valid[field] + `]`, `0`, `{}`, `[null]`, `{"AWS":""}`, `{"AWS":["",null]}`, `"*"`, `["*",""]`} {
+			doc := `{"Version":"2012-10-17","Statement":[{`
+			for i, f := range []string{"Effect", "Principal", "Action", "Resource"} {
+				if i > 0 {
+					doc += ","
+				}
+				if f == field {
+					doc += `"` + f + `":` + v
+				} else {
+					doc += `"` + f + `":` + valid[f]
+				}
+			}
+			bodyDocs = append(bodyDocs, doc+`}]}`)
+		}
+	}
+}
+
 func hostileGen() *rapid.Generator[string] {
 	return rapid.OneOf(rapid.SampledFrom(hostile), rapid.SampledFrom(hostile), rapid.SampledFrom(longValues), rapid.StringMatching(`[ -~]{0,12}`),
 		rapid.Custom(func(t *rapid.T) string {
@@ -327,7 +349,9 @@ func procWorld(c caseA) (*world, error) {
 	// the real process runs with the access log on: the loggers see every answer, also the ones given before
 	// a request is authenticated
 	p, err := gw.StartProc(gw.Config{SB: sb, Versioning: c.Versioning, Sidecar: c.Sidecar,
-		ExtraArgs: []string{"--access-log", filepath.Join(sb.Area, "access.log")}})
+		// ... and with a short life of cached accounts: entries expire between the requests of one run, so the
+		// paths "cached", "expired" and "looked up again" are all taken
+		ExtraArgs: []string{"--access-log", filepath.Join(sb.Area, "access.log"), "--iam-cache-ttl", "1", "--iam-cache-prune", "7"}})
 	if err != nil {
 		return nil, err
 	}
